@@ -55,6 +55,7 @@ def materialise(tree, root, rnd):
     """tree: kinds per slot -> {slot: relpath}; creates the files"""
     stems = ["a", "m", "z", "B", "k9", "theme", "0x", "x.min", "v1.2", "lib.2024.min"]
     rnd.shuffle(stems)
+    stems += ["f%02d" % j for j in range(len(tree))]       # (large trees: more slots than hand-picked names)
     dirs = ["", "sub", "sub/deep", "other"]
     paths = {}
     for s, kind in enumerate(tree, start=1):
@@ -233,6 +234,13 @@ def main():
     chosen = [rnd.choice(interesting) if k % 4 else rnd.choice(trees) for k in range(n)] if t == "quick" else trees * 2
     jobs = [(tr, rnd.randrange(1 << 30), (k % 3, bool((k // 3) & 1), rnd.choice([None, None, "#000000", "white", "var(--bg, white)", "var(--c, #fafafa)"])))
             for k, tr in enumerate(chosen)]
+    # large trees (30-50 files, mostly files with their own :root block, a few faults): whatever a run keeps between files
+    # (tables, maps keyed by object identity, descriptors) has dozens of chances to reach a later file
+    big_kinds = ["defines", "usesOwn", "usesOwn", "plain", "usesOther", "defines", "empty", "undecodable", "unserialisable", "faultDefines"]
+    for k in range(4 if t == "quick" else 60):
+        tr = tuple(rnd.choice(big_kinds) for _ in range(rnd.choice([30, 40, 50])))
+        jobs.append((tr, rnd.randrange(1 << 30), (k % 3, False, None)))
+    rep.extra["large_trees"] = 4 if t == "quick" else 60
     res = vlib.pool_map(one_tree, jobs, chunksize=2)
     behs = [b for b, _ in res]
     agg = vlib.validate_traces("TrBatch", behs, min_per_shard=10)
